@@ -1,9 +1,38 @@
 import Driver.Common
 import Scion.Model.Wire
+import Scion.Model.WireExt
+import Scion.Model.ScmpMsg
 import Scion.Util.WireText
 /-! Driver for the SCION header codec model (engine `wire`, property C18). -/
 namespace Driver.Wire
-open Scion.Wire Scion.Util Scion Scion.WireText
+open Scion.Wire Scion.WireExt Scion.ScmpMsg Scion.Util Scion Scion.WireText
+
+
+def optStr (o : Opt) : String := s!"{o.typ}:{o.dataLen}:{hexOf o.data}"
+
+def optsStr (os : List Opt) : String :=
+  if os.isEmpty then "-" else ",".intercalate (os.map optStr)
+
+def eerrStr (e : EErr) : String :=
+  match e with
+  | .panic => "PANIC-MODEL"
+  | .short => "err 1"
+  | _ => "err 0"
+
+def chkOf (k : String) : Option (Nat → Bool) :=
+  if k == "hbh" then some hbhChk else if k == "e2e" then some e2eChk else none
+
+/-- serializer input option: `type:datahex:alignX:alignY` -/
+def parseOptIn (s : String) : Option Opt :=
+  match s.splitOn ":" with
+  | [t, d, x, y] =>
+    match t.toNat?, unhex d, x.toNat?, y.toNat? with
+    | some t, some d, some x, some y => some ⟨t, d.length, d, x, y⟩
+    | _, _, _, _ => none
+  | _ => none
+
+def parseOptsIn (s : String) : Option (List Opt) :=
+  if s == "-" then some [] else (s.splitOn ",").mapM parseOptIn
 
 def handle : List String → String
   | ["dec", hex] =>
@@ -31,6 +60,72 @@ def handle : List String → String
       | .ok b => hexOf b
       | .error _ => "ser-err"
     | _, _, _ => "bad-op"
+  | ["ext", k, hex] =>
+    match chkOf k, unhex hex with
+    | some chk, some data =>
+      match decExt chk data with
+      | .ok (x, payload) => s!"ok {x.base.nextHdr} {x.base.extLen} {optsStr x.opts} pld={payload.length}"
+      | .error e => eerrStr e
+    | _, _ => "bad-op"
+  | ["xrt", k, hex] =>
+    match chkOf k, unhex hex with
+    | some chk, some data =>
+      match decExt chk data with
+      | .error e => eerrStr e
+      | .ok (x, payload) =>
+        match encExt chk false x with
+        | .ok b => hexOf (b ++ payload)
+        | .error _ => "ser-err"
+    | _, _ => "bad-op"
+  | ["sext", k, fix, nh, el, opts] =>
+    match chkOf k, fix.toNat?, nh.toNat?, el.toNat?, parseOptsIn opts with
+    | some chk, some fix, some nh, some el, some os =>
+      match encExt chk (fix == 1) ⟨⟨nh, el⟩, os⟩ with
+      | .ok b => hexOf b
+      | .error _ => "ser-err"
+    | _, _, _, _, _ => "bad-op"
+  | ["udp", hex] =>
+    match unhex hex with
+    | none => "bad-op"
+    | some data =>
+      match decUDP data with
+      | .ok (u, pl) =>
+        let tr := if u.length ≥ 8 ∧ u.length > data.length then 1 else 0
+        s!"ok {u.srcPort} {u.dstPort} {u.length} {u.checksum} pld={pl.length} trunc={tr}"
+      | .error .short => "err 1"
+      | .error .udpLen => "err 0"
+  | ["scmp", hex] =>
+    match unhex hex with
+    | none => "bad-op"
+    | some data =>
+      match decSCMP data with
+      | .ok (h, pl) => s!"ok {h.typ} {h.code} {h.checksum} pld={pl.length}"
+      | .error _ => "err 1"
+  -- SCMP message layer selected by the SCMP type: field values, or `payload` for unknown types
+  | ["smsg", typ, hex] =>
+    match typ.toNat?, unhex hex with
+    | some t, some data =>
+      match msgSpec t with
+      | none => "payload"
+      | some spec =>
+        match decMsg spec data with
+        | .ok (vs, pl) =>
+          let vstr := if vs.isEmpty then "-" else ",".intercalate (vs.map toString)
+          s!"ok {vstr} pld={pl.length}"
+        | .error .short => "err 1"
+        | .error .panic => "PANIC-MODEL"
+    | _, _ => "bad-op"
+  | ["smrt", typ, hex] =>
+    match typ.toNat?, unhex hex with
+    | some t, some data =>
+      match msgSpec t with
+      | none => "payload"
+      | some spec =>
+        match decMsg spec data with
+        | .ok (vs, pl) => hexOf (encFields spec vs ++ pl)
+        | .error .short => "err 1"
+        | .error .panic => "PANIC-MODEL"
+    | _, _ => "bad-op"
   | _ => "bad-op"
 
 end Driver.Wire
